@@ -74,6 +74,9 @@ pub fn outcome_json(spec: &Spec, out: &Outcome, with_obs: bool, with_orders: boo
         clock_reads += log.clock_reads;
         pid_reads += log.pid_reads;
     }
+    if out.history_faults > 0 {
+        *fired.entry("history_prior_edit".to_owned()).or_insert(0) += out.history_faults;
+    }
     let (class, nontrivial) = out
         .obs
         .first()
